@@ -107,7 +107,8 @@ CHECKS = {
         "exploration",
         "round-trip and solver-differential testing over Hypothesis-generated DSM configurations",
         "Inflow-driven -> stock-driven (both solvers) and stock-driven -> inflow-driven round trips on generated well-conditioned "
-        "configurations must reproduce inflow, outflow, stock and both cohort tables; manual and lapack solvers must agree.",
+        "configurations must reproduce inflow, outflow, stock and both cohort tables; manual and lapack solvers must agree. "
+        "A short exhaustive list of large models (survival tables up to 130 MiB) covers size thresholds of the solvers.",
         "Tolerance scales with cond_inf of the survival table; cases with first-interval survival < 0.05 or cond > 1e8 are discarded and counted.",
         "DESIGN.md C10",
     ),
@@ -189,8 +190,9 @@ CHECKS = {
         "exhaustive pair enumeration + generated operation histories (Hypothesis) against an ordered-list model",
         "All 4225 ordered receiver/argument pairs over a 4-dimension alphabet are enumerated for every set operator, "
         "named method and subset selection; in-place/out-of-place histories over a pool of sets and arrays are "
-        "generated and compared with a per-object list model after every step. Exhaustive for pairs, sampled for histories.",
-        "Trusts the list model in props/c14_dimsets.py; dimension identity = letter; bounds: alphabet of 6 dimensions, <= 30 steps.",
+        "generated and compared with a per-object list model after every step. Sets holding two dimensions of the same name "
+        "(different letters) are enumerated exhaustively and exercised by letter. Exhaustive for pairs and same-name sets, sampled for histories.",
+        "Trusts the list model in props/c14_dimsets.py; dimension identity = letter; bounds: alphabet of 7 dimensions (one empty), <= 30 steps.",
         "DESIGN.md C14",
     ),
 }
